@@ -21,11 +21,15 @@
     alignT_keyset / alignT_keys_full     ... keep the set of inputs; with all names given, .inputs order = names exactly
     alignT_partial_lazy                  partial names on a lazy non-tensor term: wrapper dropped, order unchanged
     align_keeps_domain / reorderByName_keeps_domain / reorderByPosition_witness   re-ordering keeps name -> domain
+    realign_callers_covered              obligation over Gen/C19Callers.lean (callers of to_data/to_funsor/align_tensor(s))
+    madeDims_ok / madeOp_operand_sem_partial   make_op rule: injective joint name_to_dim; each raw operand = the operand pointwise
+    madeOp_example / madeOp_skip_toData_witness   the make_op rule on x(a,b), y(b,a); skipping to_data is unsound
     align_classes_covered                obligation over Gen/C19Align.lean (classes defining `align`, from source)
     deltaAlign_perm / deltaAlign_keys    Delta.align only reorders the terms, into exactly the order `names`
 -/
 import FunsorVerif.Model.C19
 import FunsorVerif.Gen.C19Align
+import FunsorVerif.Gen.C19Callers
 namespace FV.Props.C19
 open FV.C19
 variable {α : Type}
@@ -3523,6 +3527,237 @@ def coveredAlignClasses : List String :=
 /-- Fails closed: a new class defining `align` in /repo breaks this until it gets a stream. -/
 theorem align_classes_covered :
     ∀ c ∈ FV.Gen.C19Align.alignClasses, c ∈ coveredAlignClasses := by decide
+
+/-! ### callers that re-align operands by name (generated table) -/
+
+/-- Callers with a dedicated stream in fv/harness/c19.py (`COVERED_CALLERS`). -/
+def coveredCallers : List String :=
+  ["op_factory.eager_tensor_made_op", "gaussian.align_gaussian"]
+
+/-- Callers deliberately left to another property or out of reach in this sandbox, each with the
+    reason: distribution.* need a backend distribution library (torch/pyro, jax/numpyro) that is
+    not installed here; the Gaussian substitution / concatenation paths are C12/C13's; the argmax
+    approximation is C14's; `tuple_to_funsor` only maps `to_funsor` over the components. -/
+def delegatedCallers : List String :=
+  ["approximations.compute_argmax_tensor",
+   "distribution.Distribution._get_raw_dist", "distribution.Distribution._sample",
+   "distribution.Distribution.eager_log_prob", "distribution.Distribution.entropy",
+   "distribution.Distribution.enumerate_support", "distribution.Distribution.mean",
+   "distribution.Distribution.variance", "distribution.backenddist_to_funsor",
+   "distribution.distribution_to_data", "distribution.eager_delta_tensor",
+   "distribution.eager_multinomial", "distribution.expandeddist_to_funsor",
+   "distribution.gaussian_to_data", "distribution.gaussianmixture_to_data",
+   "distribution.indep_to_data", "distribution.indepdist_to_funsor",
+   "distribution.maskeddist_to_funsor", "distribution.transformeddist_to_funsor",
+   "gaussian.Gaussian._eager_subs_affine", "gaussian.Gaussian._eager_subs_real",
+   "joint.eager_cat_homogeneous", "terms.tuple_to_funsor"]
+
+/-- Fails closed: a new function that calls `to_data(…, name_to_dim)`, `to_funsor(…, dim_to_name)`
+    or `align_tensor(s)` outside tensor.py breaks this until it is given a stream or delegated. -/
+theorem realign_callers_covered :
+    ∀ c ∈ FV.Gen.C19Callers.realignCallers, c ∈ coveredCallers ∨ c ∈ delegatedCallers := by decide
+
+/-! ### make_op: skipping `to_data` for an operand whose key order differs is unsound -/
+
+def exMX : Tensor Int := ⟨[("a", 2), ("b", 2)], ⟨[2, 2], fun idx => (ravel [2, 2] idx : Int)⟩, none⟩
+def exMY : Tensor Int := ⟨[("b", 2), ("a", 2)], ⟨[2, 2], fun idx => (ravel [2, 2] idx : Int) + 10⟩, none⟩
+
+/-- The rule proper: `z(a,b) = x(a,b) - 2*y(b,a)` at every named point. -/
+theorem madeOp_example :
+    (match madeOp2 (fun p q => p - 2 * q) exMX exMY with
+      | .ok t => (t.inputs, t.data.toFlat) | .error _ => ([], []))
+      = ([("a", 2), ("b", 2)], [0 - 2 * 10, 1 - 2 * 12, 2 - 2 * 11, 3 - 2 * 13]) := by decide
+
+/-- **madeOp_skip_toData_witness.**  `y` occupies exactly the rightmost dims {-1, -2} — the
+    shortcut's test — but lists them in the other order; passing `y.data` through un-transposed
+    pairs `x(a,b)` with `y(a,b)`'s *storage*, i.e. with `y` at the point (b↦a, a↦b): wrong values
+    under the right names. -/
+theorem madeOp_skip_toData_witness :
+    (match madeOp2 (fun p q => p - 2 * q) exMX exMY false true with
+      | .ok t => (t.inputs, t.data.toFlat) | .error _ => ([], []))
+      = ([("a", 2), ("b", 2)], [0 - 2 * 10, 1 - 2 * 11, 2 - 2 * 12, 3 - 2 * 13]) ∧
+    (match madeOp2 (fun p q => p - 2 * q) exMX exMY false true with
+      | .ok t => t.data.toFlat | .error _ => [])
+      ≠ (match madeOp2 (fun p q => p - 2 * q) exMX exMY with
+      | .ok t => t.data.toFlat | .error _ => []) := by decide
+
+
+/-! ### make_op: the joint name_to_dim and what each raw operand is
+
+  Full statement (`madeOp_sem`, NOT proved here; tied by exact correspondence in the `makeop`
+  stream and by `madeOp_example`):
+
+    TensorOK sz x → TensorOK sz y →
+    ∃ t, madeOp2 f x y = .ok t ∧ ∀ env, (∀ n, env n < sz n) →
+      t.atEnv env [] = f (x.atEnv env []) (y.atEnv env [])
+
+  Proved below (`…_partial`): the rule's `name_to_dim` is injective with dims -1, -2, …, it names
+  every input of every operand, and therefore each raw operand `to_data(arg, name_to_dim)` is —
+  at EVERY index — the operand's value at the corresponding named point (`toData_sem_idx`).  The
+  result side is `toFunsor_sem`.  Missing: the glue lemma that numpy's right-aligned broadcasting
+  of the two raw arrays reads both at the same named point. -/
+
+/-- Invariant of the `setdefault` loop: dims are -1, -2, … in insertion order, names distinct. -/
+def DimsInv (acc : List (String × Int)) : Prop :=
+  acc.map (·.2) = (List.range acc.length).map (fun (i : Nat) => -1 - (i : Int)) ∧ (acc.map (·.1)).Nodup
+
+theorem lookup_none_iff_not_mem {β : Type} (k : String) (d : List (String × β)) :
+    lookup k d = none ↔ k ∉ d.map (·.1) := by
+  constructor
+  · intro h hm
+    obtain ⟨v, hv⟩ := lookup_of_mem_keys k d hm
+    rw [h] at hv; cases hv
+  · exact lookup_none_of_not_mem k d
+
+theorem setDefaultDim_spec (acc : List (String × Int)) (k : String) (h : DimsInv acc) :
+    DimsInv (setDefaultDim acc k) ∧ (∀ a, a ∈ (setDefaultDim acc k).map (·.1) ↔ a ∈ acc.map (·.1) ∨ a = k) := by
+  unfold setDefaultDim
+  cases hl : lookup k acc with
+  | some v =>
+    refine ⟨h, fun a => ⟨Or.inl, ?_⟩⟩
+    rintro (ha | rfl)
+    · exact ha
+    · exact List.mem_map_of_mem (f := (·.1)) (lookup_mem _ v acc hl)
+  | none =>
+    have hk : k ∉ acc.map (·.1) := (lookup_none_iff_not_mem k acc).mp hl
+    refine ⟨⟨?_, ?_⟩, ?_⟩
+    · simp [List.range_succ, h.1]
+    · rw [List.map_append, List.nodup_append]
+      refine ⟨h.2, by simp, ?_⟩
+      intro a ha b hb
+      simp only [List.map_cons, List.map_nil, List.mem_singleton] at hb
+      rintro rfl; exact hk (hb ▸ ha)
+    · intro a; simp
+
+theorem foldl_setDefaultDim_spec : ∀ (ks : List String) (acc : List (String × Int)), DimsInv acc →
+    DimsInv (ks.foldl setDefaultDim acc) ∧
+    (∀ a, a ∈ (ks.foldl setDefaultDim acc).map (·.1) ↔ a ∈ acc.map (·.1) ∨ a ∈ ks)
+  | [], acc, h => ⟨h, fun a => by simp⟩
+  | k :: ks, acc, h => by
+      obtain ⟨h1, h2⟩ := setDefaultDim_spec acc k h
+      obtain ⟨h3, h4⟩ := foldl_setDefaultDim_spec ks _ h1
+      refine ⟨h3, fun a => ?_⟩
+      rw [List.foldl_cons, h4 a, h2 a]
+      simp only [List.mem_cons]
+      constructor
+      · rintro ((h | h) | h)
+        · exact Or.inl h
+        · exact Or.inr (Or.inl h)
+        · exact Or.inr (Or.inr h)
+      · rintro (h | h | h)
+        · exact Or.inl (Or.inl h)
+        · exact Or.inl (Or.inr h)
+        · exact Or.inr h
+
+theorem madeDims_spec : ∀ (args : List (Tensor α)) (acc : List (String × Int)), DimsInv acc →
+    DimsInv (args.foldl (fun acc t => t.keys.reverse.foldl setDefaultDim acc) acc) ∧
+    (∀ t ∈ args, ∀ k ∈ t.keys,
+      k ∈ (args.foldl (fun acc t => t.keys.reverse.foldl setDefaultDim acc) acc).map (·.1)) ∧
+    (∀ a ∈ acc.map (·.1),
+      a ∈ (args.foldl (fun acc t => t.keys.reverse.foldl setDefaultDim acc) acc).map (·.1))
+  | [], acc, h => ⟨h, by simp, fun _ h => h⟩
+  | t :: args, acc, h => by
+      obtain ⟨h1, h2⟩ := foldl_setDefaultDim_spec t.keys.reverse acc h
+      obtain ⟨h3, h4, h5⟩ := madeDims_spec args _ h1
+      refine ⟨h3, ?_, fun a ha => h5 a ((h2 a).mpr (Or.inl ha))⟩
+      intro u hu k hk
+      simp only [List.mem_cons] at hu
+      rcases hu with rfl | hu
+      · exact h5 k ((h2 k).mpr (Or.inr (by simpa using hk)))
+      · exact h4 u hu k hk
+
+/-- The joint `name_to_dim` of the made-op rule: dims are exactly -1, …, -n (hence pairwise distinct
+    and negative), names are distinct, and every input of every operand is named. -/
+theorem madeDims_ok (args : List (Tensor α)) :
+    ((madeDims args).map (·.2)).Nodup ∧ (∀ p ∈ madeDims args, p.2 < 0) ∧
+    ((madeDims args).map (·.1)).Nodup ∧ ∀ t ∈ args, ∀ k ∈ t.keys, k ∈ (madeDims args).map (·.1) := by
+  obtain ⟨⟨hv, hn⟩, hk, _⟩ := madeDims_spec args [] ⟨rfl, by simp⟩
+  refine ⟨?_, ?_, hn, hk⟩
+  · show ((madeDims args).map (·.2)).Nodup
+    unfold madeDims; rw [hv, List.Nodup, List.pairwise_map]
+    exact (List.nodup_range).imp (fun h e => h (by omega))
+  · intro p hp
+    have : p.2 ∈ (madeDims args).map (·.2) := List.mem_map_of_mem hp
+    unfold madeDims at this; rw [hv] at this
+    simp only [List.mem_map, List.mem_range] at this
+    obtain ⟨i, _, hi⟩ := this
+    omega
+
+theorem lookup_of_mem_nodup' : ∀ (d : List (String × Int)) (k : String) (v : Int),
+    (d.map (·.1)).Nodup → (k, v) ∈ d → lookup k d = some v
+  | [], _, _, _, h => by simp at h
+  | (k', v') :: d, k, v, hn, h => by
+      simp only [List.map_cons, List.nodup_cons] at hn
+      simp only [lookup]
+      simp only [List.mem_cons, Prod.mk.injEq] at h
+      by_cases hk : k' = k
+      · simp only [hk, if_true]
+        rcases h with h | h
+        · rw [h.2]
+        · exact absurd (List.mem_map_of_mem (f := (·.1)) h) (hk ▸ hn.1)
+      · simp only [hk, if_false]
+        rcases h with h | h
+        · exact absurd h.1.symm hk
+        · exact lookup_of_mem_nodup' d k v hn.2 h
+
+theorem lookup_inj_of_values_nodup (d : List (String × Int)) (hv : (d.map (·.2)).Nodup) (hk : (d.map (·.1)).Nodup)
+    (k1 k2 : String) (v : Int) (h1 : lookup k1 d = some v) (h2 : lookup k2 d = some v) : k1 = k2 := by
+  have m1 := lookup_mem k1 v d h1
+  have m2 := lookup_mem k2 v d h2
+  clear h1 h2
+  induction d with
+  | nil => simp at m1
+  | cons p d ih =>
+    simp only [List.map_cons, List.nodup_cons] at hv hk
+    simp only [List.mem_cons] at m1 m2
+    rcases m1 with e1 | m1 <;> rcases m2 with e2 | m2
+    · rw [← e2] at e1; exact (Prod.mk.inj e1).1
+    · exact absurd (List.mem_map_of_mem (f := (·.2)) m2) (by have := hv.1; rw [← e1] at this; exact this)
+    · exact absurd (List.mem_map_of_mem (f := (·.2)) m1) (by have := hv.1; rw [← e2] at this; exact this)
+    · exact ih hv.2 hk.2 m1 m2
+
+
+theorem mapM_lookup_nodup (d : List (String × Int)) (hv : (d.map (·.2)).Nodup) (hk : (d.map (·.1)).Nodup) :
+    ∀ (K : List String), K.Nodup → (∀ k ∈ K, k ∈ d.map (·.1)) →
+    ∃ U, K.mapM (fun k => lookup k d) = some U ∧ U.Nodup ∧ ∀ u ∈ U, ∃ k ∈ K, lookup k d = some u
+  | [], _, _ => ⟨[], rfl, by simp, by simp⟩
+  | k :: K, hn, hs => by
+      simp only [List.nodup_cons] at hn
+      obtain ⟨v, hv'⟩ := lookup_of_mem_keys k d (hs k (by simp))
+      obtain ⟨U, hU, hUn, hUm⟩ := mapM_lookup_nodup d hv hk K hn.2 (fun x hx => hs x (by simp [hx]))
+      refine ⟨v :: U, by rw [List.mapM_cons, hv', hU]; rfl, ?_, ?_⟩
+      · rw [List.nodup_cons]
+        refine ⟨?_, hUn⟩
+        intro hmem
+        obtain ⟨k', hk', hl'⟩ := hUm v hmem
+        have := lookup_inj_of_values_nodup d hv hk k k' v hv' hl'
+        exact hn.1 (this ▸ hk')
+      · intro u hu
+        simp only [List.mem_cons] at hu
+        rcases hu with rfl | hu
+        · exact ⟨k, by simp, hv'⟩
+        · obtain ⟨k', hk', hl'⟩ := hUm u hu
+          exact ⟨k', by simp [hk'], hl'⟩
+
+/-- **madeOp_operand_sem_partial.**  In `eager_tensor_made_op(op, *args)`, the raw array handed to
+    the op for a (well-formed, distinctly named) operand `x` is `to_data(x, name_to_dim)` with the
+    rule's joint `name_to_dim`; it exists, and at EVERY in-bounds index it holds the value of `x`
+    at the named point that index denotes — whatever the order in which `x` lists its inputs and
+    whatever the other operands are.  (This is exactly what the `arg.data` shortcut violates:
+    `madeOp_skip_toData_witness`.) -/
+theorem madeOp_operand_sem_partial (args : List (Tensor α)) (x : Tensor α) (hx : x ∈ args)
+    (hwf : x.WF) (hK : x.keys.Nodup) (hin : x.inputs ≠ []) :
+    ∃ U r d0 rest bshape, x.keys.mapM (fun k => lookup k (madeDims args)) = some U ∧ U.Nodup ∧
+      sortInts U = d0 :: rest ∧ toData x (some (madeDims args)) = .ok r ∧
+      r.shape = bshape ++ x.outShape ∧ bshape.length = (-d0).toNat ∧
+      ∀ bidx ev, inb bshape bidx = true → inb x.outShape ev = true →
+        r.get (bidx ++ ev) = x.data.get (U.map (fun d => bidx.getD (d - d0).toNat 0) ++ ev) := by
+  obtain ⟨hv, hneg, hkn, hall⟩ := madeDims_ok args
+  obtain ⟨U, hU, hUn, _⟩ := mapM_lookup_nodup (madeDims args) hv hkn x.keys hK (hall x hx)
+  obtain ⟨r, d0, rest, bshape, h1, h2, h3, h4, h5⟩ :=
+    toData_sem_idx x (madeDims args) hwf hin hneg U hU hUn
+  exact ⟨U, r, d0, rest, bshape, hU, hUn, h1, h2, h3, h4, h5⟩
+
 
 /-- `output=None`: the event shape is inferred from the leftmost key of `dim_to_name`, after which
     the conversion is the one with that explicit output (so all theorems above apply to it). -/
